@@ -176,6 +176,10 @@ func H_C12_PrepareRate() {
 	rd := cat.Rates[vrt.Choice("rate", len(cat.Rates))]
 	date := c12SymDate("date")
 	c := &Combo{Category: cat.Code, Rate: rd.Key, Percent: num.NewPercentage(77, 3)}
+	if vrt.Choice("stale-surcharge", 2) == 1 {
+		// a surcharge left by an earlier calculation or supplied in the input must not survive
+		c.Surcharge = num.NewPercentage(33, 3)
+	}
 	err := c.prepareRate(cat, nil, date)
 	if rd.Exempt {
 		vrt.Assert(err == nil && c.Percent == nil && c.Surcharge == nil, "exempt-key-has-no-percent")
